@@ -32,6 +32,39 @@ macro "spatial_unfold" : tactic =>
 macro "spatial_ring" : tactic =>
   `(tactic| ((try spatial_unfold); (try ext) <;> (try simp only []) <;> (try ring)))
 
+
+/-! ## Jets: projection lemmas (simp set for "value part / derivative part" computations) -/
+namespace Jet
+variable {K : Type}
+@[simp] theorem add_re [Add K] (a b : Jet K) : (a + b).re = a.re + b.re := rfl
+@[simp] theorem add_eps [Add K] (a b : Jet K) : (a + b).eps = a.eps + b.eps := rfl
+@[simp] theorem sub_re [Sub K] (a b : Jet K) : (a - b).re = a.re - b.re := rfl
+@[simp] theorem sub_eps [Sub K] (a b : Jet K) : (a - b).eps = a.eps - b.eps := rfl
+@[simp] theorem neg_re [Neg K] (a : Jet K) : (-a).re = -a.re := rfl
+@[simp] theorem neg_eps [Neg K] (a : Jet K) : (-a).eps = -a.eps := rfl
+@[simp] theorem mul_re [Add K] [Mul K] (a b : Jet K) : (a * b).re = a.re * b.re := rfl
+@[simp] theorem mul_eps [Add K] [Mul K] (a b : Jet K) : (a * b).eps = a.re * b.eps + a.eps * b.re := rfl
+@[simp] theorem div_re [Sub K] [Mul K] [Div K] (a b : Jet K) : (a / b).re = a.re / b.re := rfl
+@[simp] theorem div_eps [Sub K] [Mul K] [Div K] (a b : Jet K) :
+    (a / b).eps = (a.eps * b.re - a.re * b.eps) / (b.re * b.re) := rfl
+@[simp] theorem ofNat_re (n : Nat) [OfNat K n] [OfNat K 0] : (OfNat.ofNat n : Jet K).re = OfNat.ofNat n := rfl
+@[simp] theorem ofNat_eps (n : Nat) [OfNat K n] [OfNat K 0] : (OfNat.ofNat n : Jet K).eps = 0 := rfl
+@[simp] theorem zero_re [OfNat K 0] : (0 : Jet K).re = 0 := rfl
+@[simp] theorem zero_eps [OfNat K 0] : (0 : Jet K).eps = 0 := rfl
+@[simp] theorem one_re [OfNat K 1] [OfNat K 0] : (1 : Jet K).re = 1 := rfl
+@[simp] theorem one_eps [OfNat K 1] [OfNat K 0] : (1 : Jet K).eps = 0 := rfl
+@[simp] theorem two_re [OfNat K 2] [OfNat K 0] : (2 : Jet K).re = 2 := rfl
+@[simp] theorem two_eps [OfNat K 2] [OfNat K 0] : (2 : Jet K).eps = 0 := rfl
+@[simp] theorem four_re [OfNat K 4] [OfNat K 0] : (4 : Jet K).re = 4 := rfl
+@[simp] theorem four_eps [OfNat K 4] [OfNat K 0] : (4 : Jet K).eps = 0 := rfl
+end Jet
+
+/-- unfolds jet arithmetic down to the scalar field -/
+macro "jet_simp" : tactic =>
+  `(tactic| simp only [Jet.add_re, Jet.add_eps, Jet.sub_re, Jet.sub_eps, Jet.neg_re, Jet.neg_eps, Jet.mul_re,
+      Jet.mul_eps, Jet.div_re, Jet.div_eps, Jet.ofNat_re, Jet.ofNat_eps, Jet.zero_re, Jet.zero_eps, Jet.one_re,
+      Jet.one_eps, Jet.two_re, Jet.two_eps, Jet.four_re, Jet.four_eps, Trig.lift])
+
 section CommRing
 variable {K : Type} [CommRing K]
 
